@@ -41,7 +41,21 @@ pub const SIZES: [(u32, u32); 12] = [
     (70, 3),
     (256, 257),
 ];
-pub const TAIL: usize = 3;
+/// Spare bytes of an oversized buffer: 3 for most sizes, two whole rows plus one byte for 5x4, 9x2
+/// and 70x3 (so that "more than one spare row" exists for every depth).
+pub const fn tail<C: PixelColor>(w: usize, h: usize) -> usize {
+    match (w, h) {
+        (5, 4) | (9, 2) | (70, 3) => 2 * buffer_size::<C>(w, 1) + 1,
+        _ => 3,
+    }
+}
+pub const fn extra<C: PixelColor>(w: usize, h: usize, oversized: bool) -> usize {
+    if oversized {
+        tail::<C>(w, h)
+    } else {
+        0
+    }
+}
 
 // ---------------------------------------------------------------- framebuffer behind an object-safe interface
 
@@ -122,8 +136,8 @@ macro_rules! fb_impl {
 }
 
 macro_rules! fb_mk {
-    ($c:ty, $o:ty, $w:expr, $h:expr, $extra:expr) => {
-        Box::new(Framebuffer::<$c, <$c as PixelColor>::Raw, $o, $w, $h, { buffer_size::<$c>($w, $h) + $extra }>::new())
+    ($c:ty, $o:ty, $w:expr, $h:expr, $over:expr) => {
+        Box::new(Framebuffer::<$c, <$c as PixelColor>::Raw, $o, $w, $h, { buffer_size::<$c>($w, $h) + extra::<$c>($w, $h, $over) }>::new())
             as Box<dyn FbOps<$c>>
     };
 }
@@ -131,30 +145,30 @@ macro_rules! fb_mk {
 macro_rules! fb_pick {
     ($c:ty, $o:ty, $size:expr, $oversized:expr) => {
         match ($size, $oversized) {
-            (0, false) => fb_mk!($c, $o, 0, 0, 0),
-            (0, true) => fb_mk!($c, $o, 0, 0, TAIL),
-            (1, false) => fb_mk!($c, $o, 1, 1, 0),
-            (1, true) => fb_mk!($c, $o, 1, 1, TAIL),
-            (2, false) => fb_mk!($c, $o, 3, 2, 0),
-            (2, true) => fb_mk!($c, $o, 3, 2, TAIL),
-            (3, false) => fb_mk!($c, $o, 5, 4, 0),
-            (3, true) => fb_mk!($c, $o, 5, 4, TAIL),
-            (4, false) => fb_mk!($c, $o, 8, 3, 0),
-            (4, true) => fb_mk!($c, $o, 8, 3, TAIL),
-            (5, false) => fb_mk!($c, $o, 9, 2, 0),
-            (5, true) => fb_mk!($c, $o, 9, 2, TAIL),
-            (6, false) => fb_mk!($c, $o, 13, 3, 0),
-            (6, true) => fb_mk!($c, $o, 13, 3, TAIL),
-            (7, false) => fb_mk!($c, $o, 16, 1, 0),
-            (7, true) => fb_mk!($c, $o, 16, 1, TAIL),
-            (8, false) => fb_mk!($c, $o, 1, 5, 0),
-            (8, true) => fb_mk!($c, $o, 1, 5, TAIL),
-            (9, false) => fb_mk!($c, $o, 257, 2, 0),
-            (9, true) => fb_mk!($c, $o, 257, 2, TAIL),
-            (10, false) => fb_mk!($c, $o, 70, 3, 0),
-            (10, true) => fb_mk!($c, $o, 70, 3, TAIL),
-            (11, false) => fb_mk!($c, $o, 256, 257, 0),
-            _ => fb_mk!($c, $o, 256, 257, TAIL),
+            (0, false) => fb_mk!($c, $o, 0, 0, false),
+            (0, true) => fb_mk!($c, $o, 0, 0, true),
+            (1, false) => fb_mk!($c, $o, 1, 1, false),
+            (1, true) => fb_mk!($c, $o, 1, 1, true),
+            (2, false) => fb_mk!($c, $o, 3, 2, false),
+            (2, true) => fb_mk!($c, $o, 3, 2, true),
+            (3, false) => fb_mk!($c, $o, 5, 4, false),
+            (3, true) => fb_mk!($c, $o, 5, 4, true),
+            (4, false) => fb_mk!($c, $o, 8, 3, false),
+            (4, true) => fb_mk!($c, $o, 8, 3, true),
+            (5, false) => fb_mk!($c, $o, 9, 2, false),
+            (5, true) => fb_mk!($c, $o, 9, 2, true),
+            (6, false) => fb_mk!($c, $o, 13, 3, false),
+            (6, true) => fb_mk!($c, $o, 13, 3, true),
+            (7, false) => fb_mk!($c, $o, 16, 1, false),
+            (7, true) => fb_mk!($c, $o, 16, 1, true),
+            (8, false) => fb_mk!($c, $o, 1, 5, false),
+            (8, true) => fb_mk!($c, $o, 1, 5, true),
+            (9, false) => fb_mk!($c, $o, 257, 2, false),
+            (9, true) => fb_mk!($c, $o, 257, 2, true),
+            (10, false) => fb_mk!($c, $o, 70, 3, false),
+            (10, true) => fb_mk!($c, $o, 70, 3, true),
+            (11, false) => fb_mk!($c, $o, 256, 257, false),
+            _ => fb_mk!($c, $o, 256, 257, true),
         }
     };
 }
@@ -187,8 +201,8 @@ macro_rules! fb_menu {
         fb_menu!(@one $c, $o, $be, 256, 257);
     };
     (@one $c:ty, $o:ty, $be:expr, $w:expr, $h:expr) => {
-        fb_impl!($c, $o, $be, $w, $h, buffer_size::<$c>($w, $h));
-        fb_impl!($c, $o, $be, $w, $h, buffer_size::<$c>($w, $h) + TAIL);
+        fb_impl!($c, $o, $be, $w, $h, buffer_size::<$c>($w, $h) + extra::<$c>($w, $h, false));
+        fb_impl!($c, $o, $be, $w, $h, buffer_size::<$c>($w, $h) + extra::<$c>($w, $h, true));
     };
 }
 
@@ -239,7 +253,7 @@ pub struct Scenario {
     pub be: bool,
     pub size: u8,
     pub oversized: bool,
-    pub tail_fill: [u8; TAIL],
+    pub tail_fill: [u8; 3],
     pub steps: Vec<Step>,
 }
 
@@ -443,6 +457,15 @@ fn run_typed<C: FbColor>(sc: &Scenario, opts: &Opts) -> RunOut {
     let stride = ((w as usize) * bits as usize + 7) / 8;
     let used = stride * h as usize;
     let ppb = if bits < 8 { 8 / bits } else { 1 };
+    let tail_len: usize = if sc.oversized {
+        match (w, h) {
+            (5, 4) | (9, 2) | (70, 3) => 2 * stride + 1,
+            _ => 3,
+        }
+    } else {
+        0
+    };
+    let tail_pattern: Vec<u8> = (0..tail_len).map(|i| sc.tail_fill[i % 3].wrapping_add((i / 3) as u8 * 29)).collect();
     if (w * bits) % 8 != 0 {
         out.probes |= probe("row_not_byte_aligned");
     }
@@ -463,7 +486,7 @@ fn run_typed<C: FbColor>(sc: &Scenario, opts: &Opts) -> RunOut {
                         .set("colour", J::s(sc.kind.name()))
                         .set("order", J::s(if sc.be { "BigEndianLsb0" } else { "LittleEndianMsb0" }))
                         .set("size", J::ints(&[w as i64, h as i64]))
-                        .set("buffer_len", J::Int((used + if sc.oversized { TAIL } else { 0 }) as i64))
+                        .set("buffer_len", J::Int((used + tail_len) as i64))
                         .set("used_prefix", J::Int(used as i64)),
                 )
                 .set("steps", J::Arr(sc.steps.iter().map(step_json).collect())),
@@ -497,14 +520,14 @@ fn run_typed<C: FbColor>(sc: &Scenario, opts: &Opts) -> RunOut {
             return out;
         }
     };
-    if fb.fb_data().len() != used + if sc.oversized { TAIL } else { 0 } {
+    if fb.fb_data().len() != used + tail_len {
         out.violation = Some(mk(0, "harness", format!("buffer length {} unexpected", fb.fb_data().len())));
         out.trace_hash = trace.finish();
         return out;
     }
     if sc.oversized {
         let d = fb.fb_data_mut();
-        d[used..used + TAIL].copy_from_slice(&sc.tail_fill);
+        d[used..used + tail_len].copy_from_slice(&tail_pattern);
     }
     let fb_box = R::xywh(0, 0, w as i64, h as i64);
     let mut model: Vec<u32> = vec![0; (w * h) as usize];
@@ -747,11 +770,15 @@ fn run_typed<C: FbColor>(sc: &Scenario, opts: &Opts) -> RunOut {
         // checks after the step
         if out.violation.is_none() {
             let d = fb.fb_data();
-            if sc.oversized && d[used..used + TAIL] != sc.tail_fill {
+            if sc.oversized && d[used..used + tail_len] != tail_pattern[..] {
                 out.violation = Some(mk(
                     si,
                     "tail_modified",
-                    format!("bytes beyond the used prefix changed from {:?} to {:?}", sc.tail_fill, &d[used..used + TAIL]),
+                    format!(
+                        "bytes beyond the used prefix changed from {:?} to {:?}",
+                        &tail_pattern[..tail_len.min(12)],
+                        &d[used..used + tail_len.min(12)]
+                    ),
                 ));
             } else if in_range_writes == 0 && check_identical_if_no_write && d != &before[..] {
                 out.violation = Some(mk(si, "out_of_range_write_changed_bytes", "no write of this step was inside WIDTH x HEIGHT but data() changed".into()));
